@@ -65,8 +65,24 @@ def opBcExpand (j : Json) : Option Json := do
   let y := expandSol (vecFn x) I sol
   pure (ratList ((List.range n).map y))
 
+def opBcMpc (j : Json) : Option Json := do
+  let n ← (field? j "n") >>= getNat?
+  let A ← (field? j "A") >>= getRatMat?
+  let b ← (field? j "b") >>= getRatList?
+  let U ← (field? j "U") >>= getNatList?
+  let M ← (field? j "M") >>= getNatList?
+  let S ← (field? j "S") >>= getNatList?
+  let T ← (field? j "T") >>= getRatMat?
+  let g ← (field? j "g") >>= getRatList?
+  let w ← (field? j "w") >>= getRatList?
+  let m := U.length + M.length
+  let B := (List.range m).map (fun p => (List.range m).map (fun q => mpcMat (matFn A) U M S (matFn T) p q))
+  let y := (List.range m).map (fun p => mpcRhs (matFn A) (vecFn b) U M S (vecFn g) p)
+  let z := (List.range n).map (fun i => mpcExpand U M S (matFn T) (vecFn g) (vecFn w) i)
+  pure (Json.mkObj [("B", ratMat B), ("y", ratList y), ("z", ratList z)])
+
 def bcOps : List (String × (Json → Option Json)) :=
   [("bc.init", opBcInit), ("bc.enforce.idx", opBcEnforceIdx), ("bc.condense", opBcCondense),
-   ("bc.enforce", opBcEnforce), ("bc.penalize", opBcPenalize), ("bc.expand", opBcExpand)]
+   ("bc.enforce", opBcEnforce), ("bc.penalize", opBcPenalize), ("bc.expand", opBcExpand), ("bc.mpc", opBcMpc)]
 
 end Drv
